@@ -171,6 +171,18 @@ def run_cases(chk, tier):
                    "polygon": [[[0, 0, 6, 0, 6, 8, 0, 0], [1, 1, 1, 2, 2, 1, 1, 1]]],
                    "multipolygon": [[[[0, 0, 6, 0, 6, 8, 0, 0]], [[10, 10, 13, 14, 10, 14, 10, 10]]]]}[kind]
             check_array(chk, kind, "float64", geo.make_array(kind, fam + [None], "float64"), fam + [None], r)
+        # every contiguous slice of an array with missing elements (non-zero buffer offsets: what is missing in the parent before the
+        # window must not leak into the slice, in particular not into `boundary`)
+        if kind in ("polygon", "multipolygon", "multiline", "line"):
+            base = [e for e in geo.structured_elements(kind, r, 12, mag=12) if e is not None and geo.verts_of(kind, e)][:5]
+            while len(base) < 5:
+                base.append(base[0])
+            sl_els = [base[0], None, base[1], base[2], None, base[3], base[4]]
+            sl_arr = geo.make_array(kind, sl_els, "float64")
+            for i in range(len(sl_els)):
+                for j in range(i + 1, len(sl_els) + 1):
+                    if (i + j) % 2 == 0 or tier != "quick":
+                        check_array(chk, kind, "float64", sl_arr[i:j], sl_els[i:j], r, (f"[{i}:{j}]",))
         for k in range(rounds):
             st = geo.SUBTYPES[k % len(geo.SUBTYPES)] if tier != "quick" else ("float64", "int32", "float32")[k % 3]
             special = 0.12 if st.startswith("float") and kind in ("line", "multiline") and k % 2 == 0 else 0.0
